@@ -23,8 +23,18 @@ pub fn generate(rng: &mut Rng, kind: Kind) -> Generated {
     let mut g = generate_opts(rng, kind, false);
     // 1/5 of the providers hand back the result of `filter_candidates` in reverse input order: the trait promises no order,
     // and code that derives one filter result from another (or assumes input order) is wrong for them
-    // (not in the C17 differential: the C++ test provider filters in input order)
-    if std::env::var_os("VERIF_NO_ACTIVITY").is_none() && rng.chance(1, 5) { g.u.filter_rev = true; }
+    if rng.chance(1, 5) { g.u.filter_rev = true; }
+    // 1/4 of the universes have ties in the sort key (several builds of one version): `sort_candidates` is a stable sort,
+    // so the order among tied candidates is the order in which `filter_candidates` handed them over
+    if rng.chance(1, 4) {
+        let names: Vec<u32> = g.u.pkgs.keys().copied().collect();
+        for n in names {
+            if rng.chance(1, 2) {
+                let cs = g.u.pkgs[&n].cands.clone();
+                for c in cs { if let Some(sv) = g.u.solvs.get_mut(&c) { sv.rank /= 2; } }
+            }
+        }
+    }
     g
 }
 
